@@ -154,11 +154,11 @@ func Specs() map[string]*PropSpec {
 	}
 	an := func(kv ...string) Inst { return Inst{Pkg: "app/ante", Fn: "VerifC06_Routes", Params: pm(kv...)} }
 	m["C06"] = &PropSpec{
-		ID: "C06", Pkgs: []string{"./app/ante", "./app/ante/evm"},
-		Quick:    []Inst{an("depth", "2", "width", "2", "top", "2"), an("depth", "8", "width", "1", "top", "1"), {Pkg: "app/ante/evm", Fn: "VerifC06_EthRouteTypes", Params: pm()}, {Pkg: "app/ante", Fn: "VerifC06_ExtensionOptions", Params: pm("max", "3")}},
-		Thorough: []Inst{an("depth", "2", "width", "2", "top", "2"), an("depth", "3", "width", "2", "top", "1"), an("depth", "9", "width", "1", "top", "2"), {Pkg: "app/ante/evm", Fn: "VerifC06_EthRouteTypes", Params: pm()}, {Pkg: "app/ante", Fn: "VerifC06_ExtensionOptions", Params: pm("max", "4")}},
+		ID: "C06", Pkgs: []string{"./app/ante", "./app/ante/evm", "./app/ante/cosmos"},
+		Quick:    []Inst{an("depth", "2", "width", "2", "top", "2"), an("depth", "8", "width", "1", "top", "1"), {Pkg: "app/ante/evm", Fn: "VerifC06_EthRouteTypes", Params: pm()}, {Pkg: "app/ante", Fn: "VerifC06_ExtensionOptions", Params: pm("max", "3")}, {Pkg: "app/ante/evm", Fn: "VerifC06_EthExtensionOptions", Params: pm("max", "3"), EngineReplay: true}, {Pkg: "app/ante/cosmos", Fn: "VerifC06_Eip712ExtensionOptions", Params: pm("max", "3"), EngineReplay: true}},
+		Thorough: []Inst{an("depth", "2", "width", "2", "top", "2"), an("depth", "3", "width", "2", "top", "1"), an("depth", "9", "width", "1", "top", "2"), {Pkg: "app/ante/evm", Fn: "VerifC06_EthRouteTypes", Params: pm()}, {Pkg: "app/ante", Fn: "VerifC06_ExtensionOptions", Params: pm("max", "4")}, {Pkg: "app/ante/evm", Fn: "VerifC06_EthExtensionOptions", Params: pm("max", "4"), EngineReplay: true}, {Pkg: "app/ante/cosmos", Fn: "VerifC06_Eip712ExtensionOptions", Params: pm("max", "4"), EngineReplay: true}},
 		Bounds: map[string]string{
-			"quick":    "every transaction of <= 2 top-level messages, nesting depth <= 2 with <= 2 children per MsgExec (7 node kinds: exec, grant of eth / vesting-create / send, MsgEthereumTx, MsgCreateVestingAccount, MsgSend), plus single chains nested up to depth 8 (beyond the cap of 7); every list of <= 2 extension options over {eth, web3, dynamic-fee, unknown}; on the Cosmos route (handler built with the application's extension-option checker) every list of <= 3 options after a leading dynamic-fee option: rejected exactly when some option is not the supported one",
+			"quick":    "every transaction of <= 2 top-level messages, nesting depth <= 2 with <= 2 children per MsgExec (7 node kinds: exec, grant of eth / vesting-create / send, MsgEthereumTx, MsgCreateVestingAccount, MsgSend), plus single chains nested up to depth 8 (beyond the cap of 7); every list of <= 2 extension options over {eth, web3, dynamic-fee, unknown}; on the Cosmos route (handler built with the application's extension-option checker) every list of <= 3 options after a leading dynamic-fee option: rejected exactly when some option is not the supported one; on the Ethereum route (EthValidateBasicDecorator) and on the legacy EIP-712 route (the real VerifySignature prelude) every list of <= 3 options after the route-selecting one: accepted only when it is the single option",
 			"thorough": "additionally depth 3 x width 2 (1 top-level message) and chains to depth 9 with 2 top-level messages",
 		},
 		Outside:     []string{"the type assertions inside the individual eth-route decorators (they need keeper stubs; planned with the eth ante harnesses)", "wider / deeper forests than the bound", "decorators after the blocking ones (they can only reject more)"},
@@ -193,12 +193,12 @@ func Specs() map[string]*PropSpec {
 		ID: "C03", Pkgs: []string{"./app/ante/evm", "./app/ante/cosmos", "./x/evm/keeper", "./ethereum/eip712"},
 		Quick:    []Inst{{Pkg: "app/ante/evm", Fn: "VerifC03_Nonce", Params: pm("msgs", "3")}, {Pkg: "app/ante/cosmos", Fn: "VerifC03_Eip712Sequence", Params: pm(), EngineReplay: true},
 			{Pkg: "app/ante/evm", Fn: "VerifC03_EthChainID", Params: pm(), EngineReplay: true}, {Pkg: "x/evm/keeper", Fn: "VerifC03_ExecutionKeepsSequence", Params: pm(), EngineReplay: true},
-			{Pkg: "ethereum/eip712", Fn: "VerifC03_Eip712DirectCoverage", Params: pm(), EngineReplay: true}},
+			{Pkg: "ethereum/eip712", Fn: "VerifC03_Eip712DirectCoverage", Params: pm(), EngineReplay: true}, {Pkg: "app/ante/cosmos", Fn: "VerifC03_Eip712LegacyCoverage", Params: pm(), EngineReplay: true}},
 		Thorough: []Inst{{Pkg: "app/ante/evm", Fn: "VerifC03_Nonce", Params: pm("msgs", "4")}, {Pkg: "app/ante/cosmos", Fn: "VerifC03_Eip712Sequence", Params: pm(), EngineReplay: true},
 			{Pkg: "app/ante/evm", Fn: "VerifC03_EthChainID", Params: pm(), EngineReplay: true}, {Pkg: "x/evm/keeper", Fn: "VerifC03_ExecutionKeepsSequence", Params: pm(), EngineReplay: true},
-			{Pkg: "ethereum/eip712", Fn: "VerifC03_Eip712DirectCoverage", Params: pm(), EngineReplay: true}},
+			{Pkg: "ethereum/eip712", Fn: "VerifC03_Eip712DirectCoverage", Params: pm(), EngineReplay: true}, {Pkg: "app/ante/cosmos", Fn: "VerifC03_Eip712LegacyCoverage", Params: pm(), EngineReplay: true}},
 		Bounds: map[string]string{
-			"quick":    "Ethereum transactions of <= 3 messages by 2 senders in any interleaving (legacy and dynamic-fee), any nonces, any account sequences < 2^62; immediate replay of the accepted transaction; chain binding on the Ethereum route: one legacy (any v < 2^40), access-list or dynamic-fee (any chain id < 2^40) transaction through the signature decorator with go-ethereum's signer selection and chain-id check executed, AllowUnprotectedTxs on/off; execution (real ApplyMessageWithConfig, call or contract creation, any interpreter outcome, 0-3 later messages of the same transaction already accepted by the ante handler) leaves the sender's sequence exactly where the ante handler put it; EIP-712 over a SIGN_MODE_DIRECT sign doc (one bank message, any memo / timeout height / fee / payer / granter / sequence / account number, extension options of either kind): accepted => every such field reaches the sign bytes",
+			"quick":    "Ethereum transactions of <= 3 messages by 2 senders in any interleaving (legacy and dynamic-fee), any nonces, any account sequences < 2^62; immediate replay of the accepted transaction; chain binding on the Ethereum route: one legacy (any v < 2^40), access-list or dynamic-fee (any chain id < 2^40) transaction through the signature decorator with go-ethereum's signer selection and chain-id check executed, AllowUnprotectedTxs on/off; execution (real ApplyMessageWithConfig, call or contract creation, any interpreter outcome, 0-3 later messages of the same transaction already accepted by the ante handler) leaves the sender's sequence exactly where the ante handler put it; EIP-712 over a SIGN_MODE_DIRECT sign doc (one bank message, any memo / timeout height / fee / payer / granter / sequence / account number, extension options of either kind): accepted => every such field reaches the sign bytes; legacy EIP-712 (Web3Tx) route: the real VerifySignature hands a different payload to the typed-data construction (or refuses) for any two transactions differing in exactly one of {fee amount, gas, fee granter set / removed / replaced, memo, timeout height, message, sequence, account number, chain id}",
 			"thorough": "<= 4 messages",
 		},
 		Outside:     []string{"signature validity (keccak-256, RLP, secp256k1 recovery, EIP-712 typed-data hashing): cannot be encoded for an SMT solver within reach", "that a signature verifies only for the exact signed content (inside VerifySignature / go-ethereum)", "the plain Cosmos route (SDK SigVerificationDecorator) and the non-legacy EIP-712 path"},
@@ -209,12 +209,12 @@ func Specs() map[string]*PropSpec {
 	m["C05"] = &PropSpec{
 		ID: "C05", Pkgs: []string{"./x/evm/statedb", "./precompiles/staking", "./x/evm/keeper"},
 		Quick: []Inst{sd("VerifC05_StateDB", "ops", "3", "kinds", "tsdf"), sd("VerifC05_StateDB", "ops", "4", "kinds", "sfc", "addrs", "2", "vals", "2"), sd("VerifC05_StateDB", "ops", "3", "kinds", "tfc", "amts", "1"),
-			{Pkg: "precompiles/staking", Fn: "VerifC05_PrecompileRevert", Params: pm(), EngineReplay: true}, {Pkg: "x/evm/keeper", Fn: "VerifC05_ApplyTransaction", Params: pm(), EngineReplay: true}},
+			{Pkg: "precompiles/staking", Fn: "VerifC05_PrecompileRevert", Params: pm(), EngineReplay: true}, {Pkg: "precompiles/staking", Fn: "VerifC04_RunAtomic", Params: pm(), EngineReplay: true}, {Pkg: "x/evm/keeper", Fn: "VerifC05_ApplyTransaction", Params: pm(), EngineReplay: true}, {Pkg: "x/evm/keeper", Fn: "VerifC05_KeeperWriteBack", Params: pm(), EngineReplay: true}},
 		Thorough: []Inst{sd("VerifC05_StateDB", "ops", "3", "kinds", "tsdfc"), sd("VerifC05_StateDB", "ops", "4", "kinds", "sfc", "addrs", "2", "vals", "2"), sd("VerifC05_StateDB", "ops", "4", "kinds", "tfc", "amts", "1"),
-			sd("VerifC05_StateDB", "ops", "4", "kinds", "sdf", "addrs", "2", "vals", "2"), {Pkg: "precompiles/staking", Fn: "VerifC05_PrecompileRevert", Params: pm(), EngineReplay: true},
-			{Pkg: "x/evm/keeper", Fn: "VerifC05_ApplyTransaction", Params: pm(), EngineReplay: true}},
+			sd("VerifC05_StateDB", "ops", "4", "kinds", "sdf", "addrs", "2", "vals", "2"), {Pkg: "precompiles/staking", Fn: "VerifC05_PrecompileRevert", Params: pm(), EngineReplay: true}, {Pkg: "precompiles/staking", Fn: "VerifC04_RunAtomic", Params: pm(), EngineReplay: true},
+			{Pkg: "x/evm/keeper", Fn: "VerifC05_ApplyTransaction", Params: pm(), EngineReplay: true}, {Pkg: "x/evm/keeper", Fn: "VerifC05_KeeperWriteBack", Params: pm(), EngineReplay: true}},
 		Bounds: map[string]string{
-			"quick":    "every program of <= 3 state operations (value transfer, SSTORE, SELFDESTRUCT, nested call frame that returns or reverts, depth <= 2) over 3 accounts x 2 slots; plus the focused families of 4 operations {SSTORE, frame, mid-transaction Commit} over 2 accounts and 3 operations {transfer, frame, mid-transaction Commit}; all operand choices enumerated; one inner frame that calls staking approve / revoke / delegate (real method bodies, symbolic amounts and pre-existing grant) and then reverts or returns, compared with the Cosmos-side state (grant store, bonded pool, delegator balance) before the frame; transaction level: the real ApplyTransaction (call or creation, any interpreter outcome, post-processing hook succeeding or failing) with an interpreter that writes a storage slot and a Cosmos-side record into the StateDB's context: both persist exactly when the transaction succeeds",
+			"quick":    "every program of <= 3 state operations (value transfer, SSTORE, SELFDESTRUCT, nested call frame that returns or reverts, depth <= 2) over 3 accounts x 2 slots; plus the focused families of 4 operations {SSTORE, frame, mid-transaction Commit} over 2 accounts and 3 operations {transfer, frame, mid-transaction Commit}; all operand choices enumerated; one inner frame that calls staking approve / revoke / delegate (real method bodies, symbolic amounts and pre-existing grant) and then reverts or returns, compared with the Cosmos-side state (grant store, bonded pool, delegator balance) before the frame; transaction level: the real ApplyTransaction (call or creation, any interpreter outcome, post-processing hook succeeding or failing) with an interpreter that writes a storage slot and a Cosmos-side record into the StateDB's context: both persist exactly when the transaction succeeds; keeper write-back: SetAccount with any nonce (also lower than the stored one), balance < 2^128 and code hash over an absent or existing account is read back exactly by GetAccount",
 			"thorough": "all five operation kinds with 3 operations; the focused families with 4 operations",
 		},
 		Outside:     []string{"Cosmos-side effects of the distribution and ICS-20 precompiles (same structure as the staking ones decided here: direct writes to the SDK context)", "gas, contract bytecode (the harness is the call tree)", "longer programs / deeper nesting than the bound"},
@@ -258,12 +258,12 @@ func Specs() map[string]*PropSpec {
 	ps := func(fn string, kv ...string) Inst { return Inst{Pkg: "precompiles/staking", Fn: fn, Params: pm(kv...), EngineReplay: true} }
 	m["C04"] = &PropSpec{
 		ID: "C04", Pkgs: []string{"./precompiles/staking", "./precompiles/distribution", "./precompiles/ics20"},
-		Quick: []Inst{ps("VerifC04_Identity"), ps("VerifC04_CreateValidatorIdentity"), ps("VerifC04_Allowance", "steps", "3"), {Pkg: "precompiles/distribution", Fn: "VerifC04_Distribution", Params: pm(), EngineReplay: true},
+		Quick: []Inst{ps("VerifC04_Identity"), ps("VerifC04_CreateValidatorIdentity"), ps("VerifC04_RunAtomic"), ps("VerifC04_Allowance", "steps", "3"), {Pkg: "precompiles/distribution", Fn: "VerifC04_Distribution", Params: pm(), EngineReplay: true},
 			{Pkg: "precompiles/ics20", Fn: "VerifC04_Ics20", Params: pm("checkSupply", "0"), EngineReplay: true}, {Pkg: "precompiles/ics20", Fn: "VerifC04_Ics20Allowance", Params: pm("steps", "3"), EngineReplay: true}, {Pkg: "precompiles/ics20", Fn: "VerifC04_Ics20Approve", Params: pm(), EngineReplay: true}},
-		Thorough: []Inst{{Pkg: "precompiles/ics20", Fn: "VerifC04_Ics20Approve", Params: pm(), EngineReplay: true}, {Pkg: "precompiles/ics20", Fn: "VerifC04_Ics20Allowance", Params: pm("steps", "4"), EngineReplay: true}, ps("VerifC04_Identity"), ps("VerifC04_CreateValidatorIdentity"), ps("VerifC04_Allowance", "steps", "5"), {Pkg: "precompiles/distribution", Fn: "VerifC04_Distribution", Params: pm(), EngineReplay: true},
+		Thorough: []Inst{{Pkg: "precompiles/ics20", Fn: "VerifC04_Ics20Approve", Params: pm(), EngineReplay: true}, {Pkg: "precompiles/ics20", Fn: "VerifC04_Ics20Allowance", Params: pm("steps", "4"), EngineReplay: true}, ps("VerifC04_Identity"), ps("VerifC04_CreateValidatorIdentity"), ps("VerifC04_RunAtomic"), ps("VerifC04_Allowance", "steps", "5"), {Pkg: "precompiles/distribution", Fn: "VerifC04_Distribution", Params: pm(), EngineReplay: true},
 			{Pkg: "precompiles/ics20", Fn: "VerifC04_Ics20", Params: pm("checkSupply", "0"), EngineReplay: true}},
 		Bounds: map[string]string{
-			"quick":    "staking precompile delegate / undelegate for every (signer, caller in {signer, contract}, named account in 3 addresses) relationship x grant state {absent, wrong type, limited, unlimited, other message type} x amount < 2^128 x module accepts/refuses; createValidator for every (caller, named account) relationship x grant state {absent, generic grant for MsgCreateValidator, unlimited delegate grant}: it reaches the staking module only when the signer calls directly for its own account; sequences of <= 3 operations from {approve(x), approve(unlimited), increase(x), decrease(x), revoke, spend(x) by the contract} with symbolic amounts < 2^200; distribution withdrawDelegatorRewards / claimRewards / withdrawValidatorCommission / setWithdrawAddress for every (caller, named account) relationship; ICS-20 transfer for every (caller, sender) relationship x channel {granted, existing but not granted, absent} x grant state {absent, wrong type, limited, unlimited, limited with an allow list excluding the receiver} x amount < 2^100 x module accepts/refuses, with ibc-go's own TransferAuthorization.Accept; sequences of <= 3 ICS-20 increaseAllowance / decreaseAllowance / spend operations over a grant with two channel allocations, each channel's limit compared with a running model after every step",
+			"quick":    "staking precompile delegate / undelegate for every (signer, caller in {signer, contract}, named account in 3 addresses) relationship x grant state {absent, wrong type, limited, unlimited, other message type} x amount < 2^128 x module accepts/refuses; createValidator for every (caller, named account) relationship x grant state {absent, generic grant for MsgCreateValidator, unlimited delegate grant}: it reaches the staking module only when the signer calls directly for its own account; the real Precompile.Run for delegate / undelegate by a contract under a limited grant with the SDK gas meter running out at any of the Cosmos-side writes (or not at all): a failed call leaves no message applied and the grant as it was, a successful one reduces it exactly; sequences of <= 3 operations from {approve(x), approve(unlimited), increase(x), decrease(x), revoke, spend(x) by the contract} with symbolic amounts < 2^200; distribution withdrawDelegatorRewards / claimRewards / withdrawValidatorCommission / setWithdrawAddress for every (caller, named account) relationship; ICS-20 transfer for every (caller, sender) relationship x channel {granted, existing but not granted, absent} x grant state {absent, wrong type, limited, unlimited, limited with an allow list excluding the receiver} x amount < 2^100 x module accepts/refuses, with ibc-go's own TransferAuthorization.Accept; sequences of <= 3 ICS-20 increaseAllowance / decreaseAllowance / spend operations over a grant with two channel allocations, each channel's limit compared with a running model after every step",
 			"thorough": "sequences of <= 5 operations",
 		},
 		Outside:     []string{"staking redelegate / cancelUnbonding / createValidator (same pattern; not harnessed)", "ICS-20 revoke and grants with several denominations or several allocations per approve call", "the ERC-20 precompile's approve/transferFrom (not registered in AvailablePrecompiles)", "expiry of grants (the SDK treats an expired grant as absent: contract of the grant-table stub)"},
